@@ -276,6 +276,6 @@ def r4(ctx):
     new = ctx.obligations[before:]
     del ctx.obligations[before:]
     for o in new:
-        if o.construct.startswith("_drain_message_queue:expiry-before-write") or o.construct.startswith("_enqueue_message:purge-at-expiry"):
+        if o.construct.startswith("_drain_message_queue:expiry-before-write") or o.construct.startswith("_enqueue_message:purge-at-expiry") or o.verdict != "HOLDS":
             o.rule = "C16.R4"
             ctx.obligations.append(o)
